@@ -9,6 +9,8 @@ package main
 import (
 	"flag"
 	"fmt"
+	"io"
+	"log"
 	"os"
 	"sort"
 )
@@ -31,6 +33,7 @@ func main() {
 	if len(os.Args) < 2 {
 		usage()
 	}
+	log.SetOutput(io.Discard) // gogen logs through the standard logger before some of its panics
 	switch os.Args[1] {
 	case "gen":
 		if len(os.Args) < 3 {
